@@ -3,14 +3,15 @@
 # Run only when nothing else reads /repo.  Output: seeded/matrix.log
 cd /verif
 out=/verif/seeded/matrix.log
-: > $out
-for pair in "C01 C01" "C02 C02" "C03 C03" "C04 C04" "C05 C05" "C06 C06" "C07 C07" "C07 C03" "C08 C08" "C08 C04" "C09 C09" "C10 C10" "C11 C11" "C12 C12" "C14 C14" "C15 C15" "C16 C16" "C17 C17" "C18 C18" "C01b C01" "C01b C07" "C03b C03" "C04b C04" "C05b C05" "C07b C07" "C09b C09" "C17b C17" "C18b C18" "C02b C02" "C06b C06" "C08b C08" "C10b C10" "C11b C11" "C12b C12" "C14b C14" "C15b C15" "C16b C16"; do
-  set -- $pair
+# ROUND5=1: only the round-5 seeds, appended to the log
+if [ -n "$ROUND5" ]; then set -- "C01c C01" "C02c C02" "C03c C03" "C05c C05" "C12c C12" "C13c C13" "C14c C14" "C17c C17"; else : > $out; set -- "C01 C01" "C02 C02" "C03 C03" "C04 C04" "C05 C05" "C06 C06" "C07 C07" "C07 C03" "C08 C08" "C08 C04" "C09 C09" "C10 C10" "C11 C11" "C12 C12" "C14 C14" "C15 C15" "C16 C16" "C17 C17" "C18 C18" "C01b C01" "C01b C07" "C03b C03" "C04b C04" "C05b C05" "C07b C07" "C09b C09" "C17b C17" "C18b C18" "C02b C02" "C06b C06" "C08b C08" "C10b C10" "C11b C11" "C12b C12" "C14b C14" "C15b C15" "C16b C16" "C04c C04" "C07c C07" "C09c C09" "C10c C10" "C15c C15" "C18c C18"; fi
+for pair in "$@"; do
+  set_pair() { s1=$1; s2=$2; }; set_pair $pair
   [ -z "$(git -C /repo status --porcelain --untracked-files=no)" ] || { echo "/repo not clean"; exit 3; }
-  git -C /repo apply /verif/seeded/$1/patch.diff || { echo "seed $1: patch does not apply" >> $out; continue; }
-  VERIF_EVIDENCE_DIR=/tmp/mut_evidence python3 runner.py $2 --tier quick > /tmp/matrix_$1_$2.log 2>&1
+  git -C /repo apply /verif/seeded/$s1/patch.diff || { echo "seed $s1: patch does not apply" >> $out; continue; }
+  VERIF_EVIDENCE_DIR=/tmp/mut_evidence python3 runner.py $s2 --tier quick > /tmp/matrix_${s1}_${s2}.log 2>&1
   rc=$?
   git -C /repo checkout -- .
-  echo "seed $1 check $2 exit=$rc violations=$(grep -c '^VIOLATION' /tmp/matrix_$1_$2.log) inconclusive=$(grep -c '^INCONCLUSIVE' /tmp/matrix_$1_$2.log) first: $(grep -m1 -A1 '^VIOLATION' /tmp/matrix_$1_$2.log | tail -1 | cut -c1-90)" >> $out
+  echo "seed $s1 check $s2 exit=$rc violations=$(grep -c '^VIOLATION' /tmp/matrix_${s1}_${s2}.log) inconclusive=$(grep -c '^INCONCLUSIVE' /tmp/matrix_${s1}_${s2}.log) first: $(grep -m1 -A1 '^VIOLATION' /tmp/matrix_${s1}_${s2}.log | tail -1 | cut -c1-90)" >> $out
 done
 echo done >> $out
